@@ -30,6 +30,11 @@ CHECKS = {
             "§4 C06"),
 }
 
+CHECKS["C07"] = ("model_checking",
+    "CbFifo.tla models the reader's resume protocol (append piece to the remainder, parse again). TLC exhausts every stream of up to 4 (5) items (timestamps, markers, 12-byte scaler blocks with entry/header look-alikes inside, invalid words, bare headers, half words) under every feeding pattern and proves split invariance, remainder equality and element atomicity. Random behaviours of the same model are expanded to the 244-byte wire block and fed to the real chronobox_fifo, plus seeded streams of up to 400 items cut into up to 40 pieces; Trace_CbFifo recomputes ParsePrefix with the wire constants at every step. Word classification is swept (thorough: all 2^32 words) and compared with the top-byte table.",
+    "Trusted: CbWords.tla; the harness's buffer discipline (re-submits the slice the parser left). Exhaustive on the small-block model; sampled with real constants.",
+    "§4 C07")
+
 NOT_APPLICABLE = {
     "C12": "population statistics of a floating-point pipeline against a physical forward model; TLA+/TLC has no reals or floats, so the spec cannot be the oracle",
     "C16": "decisive clause is a floating-point global minimisation over a continuum; only a numeric brute force could referee it, which is a different technique",
